@@ -153,9 +153,21 @@ def corr_handlers(model, r, n):
 
 # ------------------------------------------------------------------ wrapper forms
 
-INNERS_OK = [["ls"], ["ls", "-la"], ["cat", "f"], ["git", "status"], ["echo", "hi"], ["ls", "a b"], ["ls", "#"], ["ls", ";"], ["grep", "x", "f"]]
-INNERS_BAD = [["rm", "x"], ["foo"], ["mv", "a", "b"], ["curl", "http://x"], ["chmod", "777", "f"], ["rm", "-rf", "a b"], ["rm", "$(x)"], ["denied"], ["foo", "-h"], ["rm", "--help", "x"]]
+INNERS_OK = [["grep", "-v", "x", "f"], ["ls", "-v"], ["ls"], ["ls", "-la"], ["cat", "f"], ["git", "status"], ["echo", "hi"], ["ls", "a b"], ["ls", "#"], ["ls", ";"], ["grep", "x", "f"]]
+INNERS_BAD = [["rm", "-rfv", "x"], ["mv", "-v", "a", "b"], ["foo", "-V"], ["chmod", "-Rv", "777", "f"], ["rm", "x"], ["foo"], ["mv", "a", "b"], ["curl", "http://x"], ["chmod", "777", "f"], ["rm", "-rf", "a b"], ["rm", "$(x)"], ["denied"], ["foo", "-h"], ["rm", "--help", "x"]]
 TRAIL = [[], [], [], ["-h"], ["--help"], ["--version"], ["x", "-h"]]
+
+
+LETTERS = "abcdefghijklmnopqrstuvwxyzABCDEFGHIJKLMNOPQRSTUVWXYZ"
+
+
+def pick_inner(r, p_ok=0.35):
+    """an inner argv; sometimes with a random short-option cluster after the program name (any letter may
+    collide with an option of the wrapper)"""
+    c = list(r.pick(INNERS_OK if r.chance(p_ok) else INNERS_BAD))
+    if r.chance(0.3):
+        c.insert(1, "-" + "".join(r.pick(LETTERS) for _ in range(r.randint(1, 3))))
+    return c + list(r.pick(TRAIL))
 
 
 def q(ts):
@@ -222,7 +234,7 @@ def correspondence(ctx):
 
     def cases():
         for _ in range(ctx.scale(150, 4000) * k):
-            c = list(r.pick(INNERS_OK + INNERS_BAD)) + list(r.pick(TRAIL))
+            c = pick_inner(r, 0.5)
             fs = list(forms(r, c))
             for lab, t, _p, _j, _f in r.sample(fs, 6):
                 yield t, None
@@ -284,7 +296,7 @@ def search(ctx):
     n = ctx.scale(120, 4000) * k
     allowed = []
     for _ in range(n):
-        c = list(r.pick(INNERS_OK if r.chance(0.35) else INNERS_BAD)) + list(r.pick(TRAIL))
+        c = pick_inner(r)
         dc = analyze(bash_join(c), cfg, Path(CWD))
         for lab, t, pure, jail_ok, ftag in forms(r, c):
             if not r.chance(0.35):
